@@ -18,6 +18,7 @@ from ..flow import ASSIGN_OPS
 
 NS = 'GeographicLib::'
 D, R, N, X = 'deg', 'rad', 'none', 'mixed'
+DEGFACTOR = 'degree()'      # the conversion factor itself, when it is kept in a variable
 DEG_RESULT = {'atan2d', 'atand', 'AngNormalize', 'AngDiff', 'AngRound', 'LatFix'}
 RAD_RESULT = {'atan2', 'atan', 'asin', 'acos'}
 DEG_ARG = {'sincosd': (0,), 'sincosde': (0, 1), 'sind': (0,), 'cosd': (0,), 'tand': (0,), 'AngNormalize': (0,),
@@ -31,6 +32,8 @@ TR = ('ParenExpr', 'ImplicitCastExpr', 'ExprWithCleanups', 'MaterializeTemporary
 def join(a, b):
     if a == b:
         return a
+    if 'degree()' in (a, b):
+        return 'none' if {a, b} <= {'degree()', 'none'} else 'mixed'
     if a == N:
         return b
     if b == N:
@@ -63,7 +66,14 @@ class Units:
     def is_degree_call(self, i):
         n = self.fn.nodes[self.fn.strip_casts(i)]
         ce = n.get('callee') or {}
-        return ce.get('name') == 'degree' and (ce.get('q') or '').startswith(NS + 'Math::')
+        if ce.get('name') == 'degree' and (ce.get('q') or '').startswith(NS + 'Math::'):
+            return True
+        # a variable (or member) that holds Math::degree(): `const real deg = Math::degree();`
+        if n['k'] == 'DeclRefExpr' and n.get('rk') in ('param', 'local'):
+            return self.env.get(n['d']) == DEGFACTOR
+        if n['k'] == 'MemberExpr' and n.get('thisbase'):
+            return self.env.get('this.' + n['m']) == DEGFACTOR
+        return False
 
     def is_scale(self, i):
         """a literal, variable or member (possibly signed / a product of such): a plain scale factor."""
@@ -135,6 +145,10 @@ class Units:
 
     def combine(self, op, a, b, ia, ib, at):
         f = self.fn
+        if a == DEGFACTOR and not self.is_degree_call(ia):
+            a = N
+        if b == DEGFACTOR and not self.is_degree_call(ib):
+            b = N
         if op == '*':
             if self.is_degree_call(ib) or self.is_degree_call(ia):
                 other = a if self.is_degree_call(ib) else b
@@ -144,6 +158,8 @@ class Units:
                     self.report(at, 'a value in radians is multiplied by Math::degree() (degrees -> radians) once more')
                 return R if other != X else X
             # a scale factor (constant, variable, member) keeps the unit; a factor computed by a call does not
+            if DEGFACTOR in (a, b):
+                return N
             if a == N:
                 return b if self.is_scale(ia) else N
             if b == N:
@@ -205,6 +221,8 @@ class Units:
             return R
         if nm == 'pi' and inmath:
             return R
+        if nm == 'degree' and inmath and not args:
+            return DEGFACTOR
         if ce.get('inrepo') and self.prog is not None and self.depth < 1:
             callee = self.prog.fns.get(ce.get('usr'))
             if callee is not None and callee.d.get('body', -1) >= 0:
